@@ -1,6 +1,8 @@
 SPECIFICATION Spec
 CONSTANTS
   RootName = {1080}
+  SideW = {1083}
+  SideN = {1083}
   GenToks = {"a", "sub", "d", "index", "empty", "dot", "dotdot", "r", "r2", "rx", "o", "pdotdot", "pslash", "nul", "absroot", "absr2"}
   PathLen = 3
   MaxReq = 1
